@@ -966,6 +966,9 @@ class _Simu(_IObserver, _params.Updatable, ABC):
 
         if isinstance(mesh, str):
             mesh = Load_Mesh(Folder.Join(self.folder, mesh))
+            # a mesh read back from disk is a new object: the simulation has to observe it,
+            # as it does the meshes it was given (constructor, mesh setter)
+            mesh._Add_observer(self)
 
         self.__mesh = mesh
 
